@@ -17,3 +17,8 @@ def run(tier):
         rp, "every (f, substitution map) pair of the lenses: eager value + inputs subset, lazy exact inputs + values; "
             "renamings both as Variable values and as strings")
     return out.finish()
+
+
+def replay_file(path):
+    from harness import replayfile
+    return replayfile.replay_term(path, "harness.modes:c04", "C04")
